@@ -413,3 +413,19 @@ func zzRepeat() int { return 300 }
 // zzIsolated has no native counterpart (engine reachability); its consequence
 // (no interference between calls) is observed by the C19/C05 histories.
 func zzIsolated(f interface{}) bool { return true }
+
+// zzHoleBytes returns path with the bytes at the listed positions (comma
+// separated) replaced by the fixture's values.
+func zzHoleBytes(path, positions, name string) string {
+	b := []byte(path)
+	if positions == "" {
+		return path
+	}
+	for _, p := range strings.Split(positions, ",") {
+		i, _ := strconv.Atoi(p)
+		if v, ok := zzFx.Bytes[fmt.Sprintf("%s[%d]", name, i)]; ok && i < len(b) {
+			b[i] = byte(v)
+		}
+	}
+	return string(b)
+}
